@@ -36,5 +36,7 @@ def run(ctx):
     from ..rules_common import check_effect_tables
     check_effect_tables(ctx, "C05")
     check_presence_tests(ctx, "C05.PRESENCE", classes=ARG_SCOPE.get("C05", []))
+    from ..rules_common import check_param_rebinding
+    check_param_rebinding(ctx, "C05.PARAMS", classes=ARG_SCOPE.get("C05", []))
 
 
